@@ -185,6 +185,11 @@ MUTANTS = [
     (JU, "if u.__class__ is Contingency), 2)", "if u.__class__ is not Contingency), 2)", ['junctors.Relations.__init__'], 'breaks'),
     (JU, "binary = (Relation(l, r, zip(lbools, rbools))", "binary = (Relation(r, l, zip(lbools, rbools))", ['junctors.Relations.__init__'], 'breaks'),
     (JU, "max((len(str(r.left)) for r in self), default=0)", "max(len(str(r.left)) for r in self)", ['junctors.Relations.tostring'], 'breaks'),
+    (M, "        self.prime = self.BitSet.prime = prime", "        self.prime = self.BitSet.prime = double", ['matrices._pair_with'], 'breaks'),
+    (M, "        Prime = other.BitSet.supremum  # noqa: N806", "        Prime = self.BitSet.supremum  # noqa: N806", ['matrices._pair_with'], 'breaks'),
+    (M, "        y._pair_with(self, 1, x)", "        y._pair_with(self, 1, y)", ['matrices.Relation.__new__'], 'breaks'),
+    (M, "        y = Y.Tuple.frombools(zip(*x.bools()))", "        y = Y.Tuple.frombools(x.bools())", ['matrices.Relation.__new__'], 'breaks'),
+    (M, "            Y = bitsets.bitset(yname, ymembers, Vector, tuple=Vectors)  # noqa: N806", "            Y = X", ['matrices.Relation.__new__'], 'breaks'),
 ]
 
 
